@@ -414,6 +414,10 @@ func (r *Run) Finish() int {
 		return 1
 	}
 	known := r.loadKnown()
+	outRoot := r.Root
+	if d := os.Getenv("VERIF_OUTDIR"); d != "" {
+		outRoot = d // mutation-testing runs write their evidence and replays elsewhere
+	}
 	var classes []string
 	for k := range r.viol {
 		classes = append(classes, k)
@@ -430,7 +434,7 @@ func (r *Run) Finish() int {
 	})
 	reproduced := map[string]int64{}
 	nviol := 0
-	os.MkdirAll(filepath.Join(r.Root, "replays"), 0o755)
+	os.MkdirAll(filepath.Join(outRoot, "replays"), 0o755)
 	const maxReported = 25
 	for _, k := range classes {
 		v := r.viol[k]
@@ -457,7 +461,7 @@ func (r *Run) Finish() int {
 			v.Repro = fmt.Sprintf("%d/5", same)
 		}
 		sum := sha1.Sum([]byte(r.ID + v.Scope + k))
-		path := filepath.Join(r.Root, "replays", fmt.Sprintf("%s-%s.json", r.ID, hex.EncodeToString(sum[:6])))
+		path := filepath.Join(outRoot, "replays", fmt.Sprintf("%s-%s.json", r.ID, hex.EncodeToString(sum[:6])))
 		rf := replayFile{Property: r.ID, Scope: v.Scope, Vector: v.Vector, Class: v.Class, Detail: v.Detail, Case: v.Describe, Count: v.Count, Tier: r.Tier, Repro: v.Repro}
 		if raw, ok := v.Describe.(json.RawMessage); ok && v.Vector == nil {
 			rf.Data = raw
@@ -533,9 +537,9 @@ func (r *Run) Finish() int {
 	if len(r.harnessErr) > 0 {
 		ev["harness_errors"] = r.harnessErr
 	}
-	os.MkdirAll(filepath.Join(r.Root, "evidence"), 0o755)
+	os.MkdirAll(filepath.Join(outRoot, "evidence"), 0o755)
 	b, _ := json.MarshalIndent(ev, "", " ")
-	if err := os.WriteFile(filepath.Join(r.Root, "evidence", r.ID+".json"), b, 0o644); err != nil {
+	if err := os.WriteFile(filepath.Join(outRoot, "evidence", r.ID+".json"), b, 0o644); err != nil {
 		fmt.Fprintln(os.Stderr, "cannot write evidence:", err)
 		return 2
 	}
